@@ -128,7 +128,7 @@ func (vfs *MemFS) Chmod(name string, mode fs.FileMode) error {
 func (vfs *MemFS) Chown(name string, uid, gid int) error {
 	const op = "chown"
 
-	if (vfs.HasFeature(avfs.FeatIdentityMgr) && !vfs.User().IsAdmin()) || vfs.OSType() == avfs.OsWindows {
+	if vfs.OSType() == avfs.OsWindows {
 		return &fs.PathError{Op: op, Path: name, Err: vfs.err.OpNotPermitted}
 	}
 
@@ -137,9 +137,15 @@ func (vfs *MemFS) Chown(name string, uid, gid int) error {
 		return &fs.PathError{Op: op, Path: name, Err: err}
 	}
 
+	u := vfs.User()
+
 	child.Lock()
-	child.setOwner(uid, gid)
+	ok := child.setOwner(uid, gid, u, !vfs.HasFeature(avfs.FeatIdentityMgr) || u.IsAdmin())
 	child.Unlock()
+
+	if !ok {
+		return &fs.PathError{Op: op, Path: name, Err: vfs.err.OpNotPermitted}
+	}
 
 	return nil
 }
@@ -299,7 +305,7 @@ func (vfs *MemFS) Join(elem ...string) string {
 func (vfs *MemFS) Lchown(name string, uid, gid int) error {
 	const op = "lchown"
 
-	if (vfs.HasFeature(avfs.FeatIdentityMgr) && !vfs.User().IsAdmin()) || vfs.OSType() == avfs.OsWindows {
+	if vfs.OSType() == avfs.OsWindows {
 		return &fs.PathError{Op: op, Path: name, Err: vfs.err.OpNotPermitted}
 	}
 
@@ -308,9 +314,15 @@ func (vfs *MemFS) Lchown(name string, uid, gid int) error {
 		return &fs.PathError{Op: op, Path: name, Err: err}
 	}
 
+	u := vfs.User()
+
 	child.Lock()
-	child.setOwner(uid, gid)
+	ok := child.setOwner(uid, gid, u, !vfs.HasFeature(avfs.FeatIdentityMgr) || u.IsAdmin())
 	child.Unlock()
+
+	if !ok {
+		return &fs.PathError{Op: op, Path: name, Err: vfs.err.OpNotPermitted}
+	}
 
 	return nil
 }
